@@ -347,6 +347,13 @@ package clickhouse_planner
 // Range aggregations over an unwrapped value on the SQL path: each is the SQL
 // aggregate of its definition over the values of the bucket; rate is the sum divided
 // by the range in seconds as a real number (a [1500ms] range divides by 1.5).
+// The 15 s shortcut: rate is the merged count divided by the range in seconds as a real
+// number (a [15500ms] range divides by 15.5), count_over_time the merged count itself.
+//@ func (*Metrics15ShortcutPlanner).Process [C08]
+//@   flag checks=-index,-assert
+//@   requires ctx.From.UnixNano() >= 0 && ctx.To.UnixNano() >= ctx.From.UnixNano()
+//@   at GetQuery$ rate-divides-by-the-range-in-seconds: m.Function == "rate" ==> typeis(arg1, "*sql.RawObject") && rawText(arg1) == "toFloat64(countMerge(count)) / " + fmtf(real(m.Duration.Milliseconds()) / 1000)
+//@   at GetQuery$ count-over-time-is-the-merged-count: m.Function == "count_over_time" ==> typeis(arg1, "*sql.RawObject") && rawText(arg1) == "countMerge(count)"
 //@ func (*UnwrapFunctionPlanner).Process [C08]
 //@   flag checks=-index,-assert
 //@   check rate: result1 == nil && u.Func == "rate" ==> typeis(val, "*sql.RawObject") && rawText(val) == "sum(unwrap_1.value) / " + fmtf(real(u.Duration.Milliseconds()) / 1000)
